@@ -481,6 +481,10 @@ def run(res, tier, seed, shard, nshards):
                     res.count("future_dated_histories")
                 if h % 5 == 1 and cfg["storage"] == "mem":  # integers beyond 2**53 (memory storage keeps them exactly)
                     prof.extra_field_vals = [2**53, 2**53 + 1, -(2**53) - 1, 10**17 + 3]
+                if h % 10 == 7:  # names, keys and values from the pool of awkward strings
+                    from .. import gen as _gen
+
+                    _gen.make_wild(prof, rng)
                 if h % 5 == 2:  # hundreds of rows
                     prof.max_rows = 400
                     prof.min_ops, prof.max_ops = 3, 6
